@@ -7,6 +7,7 @@ import (
 	"time"
 
 	abci "github.com/cometbft/cometbft/abci/types"
+	cmtproto "github.com/cometbft/cometbft/proto/tendermint/types"
 	cmttypes "github.com/cometbft/cometbft/types"
 	"github.com/cosmos/gogoproto/proto"
 
@@ -167,7 +168,7 @@ func (c *Chain) Snap() *Snapshot {
 	}
 	p, _ := app.StakingKeeper.GetParams(ctx)
 	denomID := 1
-	if p.BondDenom == "stake" {
+	if p.BondDenom == c.G.denom() {
 		denomID = 0
 	}
 	mc := decScaled(p.MinCommissionRate)
@@ -207,7 +208,7 @@ func (c *Chain) Snap() *Snapshot {
 	s.Abs, _ = app.POAKeeper.GetAbsoluteChangedInBlockPower(ctx)
 	s.Bonded = app.BankKeeper.GetBalance(ctx, authtypes.NewModuleAddress(stakingtypes.BondedPoolName), p.BondDenom).Amount.String()
 	s.NotBonded = app.BankKeeper.GetBalance(ctx, authtypes.NewModuleAddress(stakingtypes.NotBondedPoolName), p.BondDenom).Amount.String()
-	s.Supply = app.BankKeeper.GetSupply(ctx, "stake").Amount.String()
+	s.Supply = app.BankKeeper.GetSupply(ctx, c.G.denom()).Amount.String()
 	if c.Next != nil {
 		for _, v := range c.Next.Validators {
 			if id, ok := c.Keys.ByCons[string(v.Address)]; ok {
@@ -379,6 +380,7 @@ type BlockTrace struct {
 	Spec    BlockSpec
 	Hashes  map[string]string // per-module committed store hashes
 	AnteOK  []bool            // per tx: CheckTx accepted it (its signers' sequences are consumed)
+	Probes  []string          // gated PoA messages executed directly (as x/gov would) from module accounts: "<msg>:<who>:<outcome>"
 }
 
 type Trace struct {
@@ -614,8 +616,54 @@ func (c *Chain) ExecBlock(b BlockSpec) *BlockTrace {
 	bt.Hashes = c.StoreHashes()
 	if !c.noSnap {
 		bt.After = c.Snap()
+		bt.Probes = c.authorityProbes()
 	}
 	return bt
+}
+
+// authorityProbes runs the four gated PoA messages straight through the message router (no transaction, no signature —
+// the way x/gov executes a passed proposal), on a discarded branch of the committed state, with senders that cannot
+// sign transactions: x/staking's authority and module accounts. None of them is the configured PoA admin.
+func (c *Chain) authorityProbes() (out []string) {
+	app := c.App
+	base := app.NewUncachedContext(false, cmtproto.Header{Height: c.Height + 1, Time: c.Time.Add(time.Second), ChainID: chainID})
+	p, err := app.StakingKeeper.GetParams(base)
+	if err != nil {
+		return nil
+	}
+	senders := map[string]string{
+		"staking-authority": app.StakingKeeper.GetAuthority(),
+		"gov-module":        authtypes.NewModuleAddress("gov").String(),
+		"bonded-pool":       authtypes.NewModuleAddress(stakingtypes.BondedPoolName).String(),
+	}
+	names := []string{"bonded-pool", "gov-module", "staking-authority"}
+	for _, who := range names {
+		sender := senders[who]
+		if sender == c.Keys.accAddr(adminID).String() {
+			continue
+		}
+		msgs := map[string]sdk.Msg{
+			"setpower":      &poa.MsgSetPower{Sender: sender, ValidatorAddress: c.Keys.valAddrStr(0), Power: 7_000_000, Unsafe: true},
+			"remove":        &poa.MsgRemoveValidator{Sender: sender, ValidatorAddress: c.Keys.valAddrStr(0)},
+			"removepending": &poa.MsgRemovePending{Sender: sender, ValidatorAddress: c.Keys.valAddrStr(3)},
+			"params": &poa.MsgUpdateStakingParams{Sender: sender, Params: poa.StakingParams{UnbondingTime: p.UnbondingTime, MaxValidators: p.MaxValidators,
+				MaxEntries: p.MaxEntries, HistoricalEntries: p.HistoricalEntries, BondDenom: p.BondDenom, MinCommissionRate: p.MinCommissionRate}},
+		}
+		for _, kind := range []string{"params", "remove", "removepending", "setpower"} {
+			msg := msgs[kind]
+			h := app.MsgServiceRouter().Handler(msg)
+			if h == nil {
+				continue
+			}
+			ctx, _ := base.CacheContext()
+			outcome := "pass"
+			if err := catch(func() error { _, e := h(ctx, msg); return e }); err != nil {
+				outcome = outcomeOf(err)
+			}
+			out = append(out, kind+":"+who+":"+outcome)
+		}
+	}
+	return out
 }
 
 // ProjectionLines: the rows both the harness and the model print for a block.
